@@ -1,6 +1,7 @@
 package c03
 
 import (
+	"fmt"
 	"math/big"
 	"strconv"
 	"strings"
@@ -52,11 +53,16 @@ func routeFor(t *rapid.T, text string, allowInt bool) spec.Num {
 	return spec.NParse(text)
 }
 
-// tieDecimal draws a non-integral decimal with exactly 11 significant digits
-// ending in 5 (a rounding tie at the tenth digit).
+// tieDecimal draws a non-integral decimal whose last significant digit is 5 (a
+// rounding tie one digit earlier); half of the time with exactly 11
+// significant digits (the tie of a 10-digit rendering), else with 3-17.
 func tieDecimal(t *rapid.T) string {
-	digits := rapid.StringMatching(`[1-9][0-9]{9}`).Draw(t, "digits") + "5"
-	point := rapid.IntRange(0, 10).Draw(t, "point") // digits before the point
+	n := 10
+	if rapid.Bool().Draw(t, "otherlen") {
+		n = rapid.IntRange(2, 16).Draw(t, "ndigits")
+	}
+	digits := rapid.StringMatching(fmt.Sprintf(`[1-9][0-9]{%d}`, n-1)).Draw(t, "digits") + "5"
+	point := rapid.IntRange(0, n).Draw(t, "point") // digits before the point
 	var s string
 	if point == 0 {
 		s = "0." + strings.Repeat("0", rapid.IntRange(0, 3).Draw(t, "lead")) + digits
